@@ -13,7 +13,7 @@ RFC 8259 itself.
 the model) together with the denotation of a text (`ValD`, `ObjD`, `StrD`, `NumD`: the same rules, each
 carrying the JSON value it stands for — strings by the escape table of §7, numbers as `mant × 10^exp`).
 The grammar is unambiguous: a text has at most one denotation (`json_denotation_unique`, proved through an
-executable parser that is complete for the denotation, `Lemmas/JsonParser.lean`), so "the denotation of the
+executable parser that decides the denotation — sound and complete —, `Lemmas/JsonParser.lean`), so "the denotation of the
 printed line" is a function of the line and any reader that implements the RFC reads exactly it.
 "Valid JSON object" in this file means `JsonGrammar.Obj`, and "values recover the row" means the
 denotation `JsonGrammar.ObjD`; neither `readObject` nor `jsonUnescape` (the readers of
@@ -46,17 +46,17 @@ theorem denotation_refines_grammar :
 theorem object_is_json_text (cs : List Char) (h : Obj cs) : JsonText cs :=
   ⟨[], cs, [], ws_nil, .object h, ws_nil, by simp⟩
 
-/-- **The grammar is unambiguous.** A text denotes at most one JSON value, an object text has exactly one
-member list, a string text one character sequence; and `parseJson` (an executable parser,
-`Lemmas/JsonParser.lean`) computes that denotation for every text that has one, also with whitespace
-around the value (`JSON-text = ws value ws`). So `parseJson cs = none` refutes `∃ x, ValD cs x`. -/
+/-- **The grammar is unambiguous, and decidable.** A text denotes at most one JSON value, an object text
+has exactly one member list, a string text one character sequence. `parseJson` (an executable parser,
+`Lemmas/JsonParser.lean`) DECIDES the grammar's denotation: it returns `x` exactly when the text is a
+`JSON-text = ws value ws` whose value denotes `x`. So the inductive grammar can be evaluated on concrete
+texts (`decide`), acceptance and rejection alike, and any conforming reader reads the same value. -/
 theorem json_denotation_unique :
     (∀ cs x x', ValD cs x → ValD cs x' → x = x')
     ∧ (∀ cs ms ms', ObjD cs ms → ObjD cs ms' → ms = ms')
     ∧ (∀ cs s s', StrD cs s → StrD cs s' → s = s')
-    ∧ (∀ a v b x, Ws a → ValD v x → Ws b → parseJson (a ++ v ++ b) = some x) :=
-  ⟨fun _ _ _ h h' => h.unique h', fun _ _ _ h h' => h.unique h', fun _ _ _ h h' => h.unique h',
-   fun _ _ _ _ ha hv hb => parseJson_complete_text ha hv hb⟩
+    ∧ (∀ cs x, parseJson cs = some x ↔ JsonTextD cs x) :=
+  ⟨fun _ _ _ h h' => h.unique h', fun _ _ _ h h' => h.unique h', fun _ _ _ h h' => h.unique h', parseJson_iff⟩
 
 /-- `numValue` / `isJsonNumber` (the executable check assumed of the REAL texts) is exact for §6:
 it computes `d` iff the grammar says the text is a `number` denoting `d`. In particular a `number` has
@@ -256,17 +256,20 @@ example : parseJson "{\"k\\\"\":\"a\\\"b\\\\c\\n\\u0001😀\",\"n\":null,\"xs\":
         (['x', 's'], .arr [.arr [], .arr [.bool true, .null], .str []])]) := by decide +kernel
 
 -- the grammar on texts the printer never writes: whitespace everywhere, exponents, `\/`, a surrogate pair ...
-example : parseJson " { \"a\" : [ 1 , -2.50e+1 , true ] ,\t\"\\/\\uD83D\\uDE00\" : { } }\n".toList
-    = some (.obj [(['a'], .arr [.num ⟨1, 0⟩, .num ⟨-250, -1⟩, .bool true]), (['/', '😀'], .obj [])]) := by
-  decide +kernel
--- ... and on texts that are not JSON: none of these has a denotation (`no_denotation_of_parse_none`)
+example : JsonTextD " { \"a\" : [ 1 , -2.50e+1 , true ] ,\t\"\\/\\uD83D\\uDE00\" : { } }\n".toList
+    (.obj [(['a'], .arr [.num ⟨1, 0⟩, .num ⟨-250, -1⟩, .bool true]), (['/', '😀'], .obj [])]) :=
+  (parseJson_iff _ _).mp (by decide +kernel)
+-- ... and on texts that are not JSON: none of these is a JSON text with a denotation (`parseJson_iff`)
 example : parseJson "{\"a\":1,}".toList = none ∧ parseJson "{\"a\" 1}".toList = none
     ∧ parseJson "{a:1}".toList = none ∧ parseJson "[1 2]".toList = none ∧ parseJson "[1,]".toList = none
     ∧ parseJson "01".toList = none ∧ parseJson "\"a\nb\"".toList = none ∧ parseJson "\"\\x\"".toList = none
     ∧ parseJson "\"\\uD83D\"".toList = none ∧ parseJson "{\"a\":1}}".toList = none
     ∧ parseJson "'a'".toList = none ∧ parseJson "NaN".toList = none ∧ parseJson "".toList = none := by
   decide +kernel
-example : ¬ ∃ x, ValD "{\"a\":1,}".toList x := no_denotation_of_parse_none (by decide +kernel)
+example : ¬ ∃ x, JsonTextD "{\"a\":1,}".toList x := fun ⟨x, h⟩ => by
+  have h1 := (parseJson_iff _ _).mpr h
+  have h2 : parseJson "{\"a\":1,}".toList = none := by decide +kernel
+  rw [h2] at h1; cases h1
 
 -- the hypotheses of `json_record_denotes_row` / `json_record_recovers_row_rfc` hold of it
 example : cols1.Nodup ∧ cols1.length = row1.length ∧ (∀ v ∈ row1, noReal v = true) := by decide
